@@ -196,7 +196,8 @@ class Checker:
             raise FileNotFoundError(path)
 
         root = Path(path)
-        if root.name == self.name:
+        single = "length" in self.info
+        if root.name == self.name and not (single and root.is_dir()):
             self.log_msg("Content found: %s.", str(root))
             return root
 
